@@ -3,6 +3,10 @@
 //! (by id, by equality filter with a parameter, by equality filter with a literal), with a snapshot of every row
 //! before and after (frame condition); and the SQL text of the real compiler under arbitrary default values
 //! (CDefault) and under replacement of every string literal (CShape).
+use discret::verif_hooks::configuration::Configuration;
+use discret::verif_hooks::database::graph_database::GraphDatabaseService;
+use discret::verif_hooks::event_service::EventService;
+use discret::verif_hooks::security::random32;
 use discret::verif_hooks::database::mutation_query::MutationQuery;
 use discret::verif_hooks::database::query::{PreparedQueries, Query};
 use discret::verif_hooks::database::query_language::data_model_parser::DataModel;
@@ -762,6 +766,195 @@ fn alias_search_cases(out: &mut Buf, rng: &mut Rng) {
     }
 }
 
+// ---------------------------------------------------------------- updates of an existing value (old -> new)
+#[derive(Clone, Debug, PartialEq)]
+enum Uv { Int(i64), Flt(f64), Bool(bool), Str(String), JNum(String) }
+impl Uv {
+    fn ty(&self) -> i64 { match self { Uv::Int(_) => 0, Uv::Flt(_) => 1, Uv::Bool(_) => 2, Uv::Str(_) => 3, Uv::JNum(_) => 4 } }
+    fn field(&self) -> &'static str { match self { Uv::Int(_) => "i", Uv::Flt(_) => "f", Uv::Bool(_) => "b", Uv::Str(_) => "s", Uv::JNum(_) => "j" } }
+    fn enc(&self) -> Vec<i64> {
+        match self { Uv::Int(z) => vec![*z], Uv::Flt(f) => vec![f.to_bits() as i64], Uv::Bool(b) => vec![*b as i64], Uv::Str(s) | Uv::JNum(s) => s.chars().map(|c| c as i64).collect() }
+    }
+    fn add(&self, p: &mut Parameters, name: &str) {
+        match self { Uv::Int(z) => p.add(name, *z).unwrap(), Uv::Flt(f) => p.add(name, *f).unwrap(), Uv::Bool(b) => p.add(name, *b).unwrap(), Uv::Str(s) | Uv::JNum(s) => p.add(name, s.clone()).unwrap() }
+    }
+    fn literal(&self) -> String {
+        match self { Uv::Int(z) => z.to_string(), Uv::Flt(f) => float_text(*f), Uv::Bool(b) => b.to_string(), Uv::Str(s) | Uv::JNum(s) => format!("\"{}\"", json_esc(s)) }
+    }
+    /// equal as values of the language (0.0 = -0.0): the filter with the old value is only required to miss then
+    fn same_value(&self, o: &Uv) -> bool { match (self, o) { (Uv::Flt(a), Uv::Flt(b)) => a == b, (a, b) => a == b } }
+    fn show(&self) -> String { match self { Uv::Flt(f) => format!("{:e} [{:016x}]", f, f.to_bits()), Uv::Str(s) => format!("{:?}", s), o => format!("{:?}", o) } }
+}
+/// a row holding `old` in the field is updated by id to `new`; the value read back, the equality filters with the new
+/// value (parameter, literal), the filter with the old value (must not find the row any more), the frame
+fn upd_case(out: &mut Buf, w: &World, jw: &World, how: How, old: &Uv, new: &Uv, kind: &str) {
+    let (w, ent, create) = match old { Uv::JNum(_) => (jw, "J", "mutate { J { s: \"t\" jp: \"0\" bp: \"AA\" j: $o } }".to_string()),
+        _ => (w, "V", format!("mutate {{ V {{ s: {} i: {} f: {} b: {} sn: \"keep\" }} }}", if old.ty() == 3 { "$o" } else { "\"init\"" }, if old.ty() == 0 { "$o" } else { "1" }, if old.ty() == 1 { "$o" } else { "1.5" }, if old.ty() == 2 { "$o" } else { "true" })) };
+    let field = old.field();
+    let mut p = Parameters::new(); old.add(&mut p, "o");
+    let id = mutate(w, &create, p).unwrap();
+    let id64 = uid_encode(&id);
+    let before = snapshot(w);
+    let mut wp = Parameters::new(); wp.add("id", id64.clone()).unwrap();
+    let assign = match how { How::Param => { new.add(&mut wp, "v"); "$v".to_string() } How::Literal => new.literal() };
+    let mut note = String::new();
+    let obs = match mutate(w, &format!("mutate {{ {} {{ id: $id {}: {} }} }}", ent, field, assign), wp) {
+        Err(e) => { note = e.clone(); vec![if e.starts_with("parse") { 1 } else { 2 }] }
+        Ok(_) => {
+            let after = snapshot(w);
+            let fshort = w.dm.get_entity(ent).unwrap().get_field(field).unwrap().short_name.clone();
+            let mut frame = before.len() == after.len();
+            if frame { for (b, a) in before.iter().zip(after.iter()) {
+                if b.1 != id.to_vec() { if b != a { frame = false; } }
+                else {
+                    if b.0 != a.0 || b.3 != a.3 { frame = false; }
+                    let jb: serde_json::Value = serde_json::from_str(b.2.as_ref().unwrap()).unwrap();
+                    let ja: serde_json::Value = serde_json::from_str(a.2.as_ref().unwrap()).unwrap();
+                    for (k, v) in jb.as_object().unwrap() { if *k != fshort && ja.get(k) != Some(v) { frame = false; } }
+                    if ja.as_object().unwrap().len() != jb.as_object().unwrap().len() { frame = false; }
+                }
+            } }
+            let mut p = Parameters::new(); p.add("id", id64.clone()).unwrap();
+            let res = query(w, &w.dm, &format!("query {{ {} (id = $id) {{ {} }} }}", ent, field), p).unwrap_or_else(|e| { note = e; String::new() });
+            let v: serde_json::Value = serde_json::from_str(&res).unwrap_or(json!(null));
+            let back = v.get(ent).and_then(|a| a.get(0)).and_then(|o| o.get(field)).cloned().unwrap_or(json!(null));
+            let raw = raw_member(&res, field).unwrap_or_default();
+            let back_enc: Vec<i64> = match new {
+                Uv::Int(_) => vec![raw.trim().parse::<i64>().unwrap_or(i64::MIN + 5)],
+                Uv::Flt(_) => vec![raw_number_bits(&raw)],
+                Uv::Bool(_) => vec![match back { serde_json::Value::Bool(x) => x as i64, _ => -1 }],
+                Uv::Str(_) => match &back { serde_json::Value::String(x) => x.chars().map(|c| c as i64).collect(), _ => vec![-1] },
+                Uv::JNum(_) => raw.trim().chars().map(|c| c as i64).collect(),
+            };
+            note = format!("read back {}", raw);
+            let count = |r: Result<String, String>| -> i64 { match r { Ok(s) => { let v: serde_json::Value = serde_json::from_str(&s).unwrap_or(json!(null)); v.get(ent).and_then(|a| a.as_array()).map(|a| a.len() as i64).unwrap_or(-1) } Err(_) => -2 } };
+            let (by_param, by_literal, old_gone) = if let Uv::JNum(_) = new { (2, 2, 2) } else {
+                let mut p = Parameters::new(); p.add("id", id64.clone()).unwrap(); new.add(&mut p, "p");
+                let bp = count(query(w, &w.dm, &format!("query {{ {} (id = $id, {} = $p) {{ id }} }}", ent, field), p));
+                let mut p = Parameters::new(); p.add("id", id64.clone()).unwrap();
+                let bl = count(query(w, &w.dm, &format!("query {{ {} (id = $id, {} = {}) {{ id }} }}", ent, field, new.literal()), p));
+                let og = if old.same_value(new) { 1 } else {
+                    let mut p = Parameters::new(); p.add("id", id64.clone()).unwrap(); old.add(&mut p, "p");
+                    let c = count(query(w, &w.dm, &format!("query {{ {} (id = $id, {} = $p) {{ id }} }}", ent, field), p));
+                    if c == 0 { 1 } else { 0 }
+                };
+                (bp, bl, og)
+            };
+            let mut ob = vec![0, back_enc.len() as i64]; ob.extend(back_enc); ob.extend([by_param, by_literal, old_gone, frame as i64]);
+            ob
+        }
+    };
+    out.push(Case { kind: kind.into(), coq: format!("CUpd {} {} {} {}", how.coq(), old.ty(), glist(&old.enc().iter().map(|z| gz(*z)).collect::<Vec<_>>()), glist(&new.enc().iter().map(|z| gz(*z)).collect::<Vec<_>>())), obs,
+        meta: json!({"old": old.show(), "new": new.show(), "note": note}) });
+}
+fn next_up(f: f64) -> f64 { let b = f.to_bits(); f64::from_bits(if f >= 0.0 { b + 1 } else { b - 1 }) }
+fn update_cases(out: &mut Buf, rng: &mut Rng, w: &World) {
+    let jw = new_jworld();
+    let mut pairs: Vec<(Uv, Uv)> = vec![];
+    let p53 = 1i64 << 53; let p62 = 1i64 << 62;
+    for (a, b) in [(p53, p53 + 1), (p53 + 1, p53), (p53 - 1, p53), (p53 + 1, p53 + 2), (-p53, -p53 - 1), (-p53 - 1, -p53), (p62, p62 + 1), (p62 + 1, p62), (i64::MAX, i64::MAX - 1), (i64::MAX - 1, i64::MAX),
+                   (i64::MIN, i64::MIN + 1), (i64::MIN + 1, i64::MIN), (0, 1), (1, 0), (-1, 1), (5, 5), (p53 + 1, p53 + 1), (1i64 << 32, (1i64 << 32) + 1), (1_000_000_000_000_000_000, 1_000_000_000_000_000_001)] { pairs.push((Uv::Int(a), Uv::Int(b))); }
+    for _ in 0..scale(12, 200) { let x = p53 + (rng.next() >> 2) as i64 % (i64::MAX - p53 - 4); let d = if rng.chance(1, 2) { 1 } else { -1 }; pairs.push((Uv::Int(x), Uv::Int(x + d))); }
+    for x in [1.0f64, 0.1, 1e308, 5e-324, 9007199254740992.0, -1.5, 1e-7, 0.30000000000000004, 123456.789, -2.2250738585072014e-308] { pairs.push((Uv::Flt(x), Uv::Flt(next_up(x)))); pairs.push((Uv::Flt(next_up(x)), Uv::Flt(x))); }
+    for (a, b) in [(0.0f64, 1.0), (1.5, 1.5), (2.0, 2.5), (1e16, 1e16 + 2.0)] { pairs.push((Uv::Flt(a), Uv::Flt(b))); }
+    for _ in 0..scale(8, 150) { let x = f64::from_bits(rng.next()); if x.is_finite() && x != 0.0 { pairs.push((Uv::Flt(x), Uv::Flt(next_up(x)))); } }
+    for (a, b) in [(true, false), (false, true), (true, true), (false, false)] { pairs.push((Uv::Bool(a), Uv::Bool(b))); }
+    for (a, b) in [("abc", "abd"), ("abc", "abC"), ("abc", "abc "), ("abc ", "abc"), ("\u{e9}", "e\u{301}"), ("e\u{301}", "\u{e9}"), ("a", "a\u{0}"), ("", "  "), (" ", ""), ("x", "x"), ("stra\u{df}e", "strasse"), ("I", "\u{131}"),
+                   ("a\nb", "a\n b"), ("a\nb", "a\r\nb"), ("\u{212b}", "\u{c5}"), ("1", "1.0"), ("null", "NULL"), ("tab\there", "tab here"), ("\u{feff}a", "a"), ("a\u{200b}", "a")] { pairs.push((Uv::Str(a.into()), Uv::Str(b.into()))); }
+    for _ in 0..scale(10, 200) { let a = gen_string(rng); let mut b: Vec<char> = a.chars().collect(); if b.is_empty() || rng.chance(1, 3) { b.push(gen_scalar(rng)); } else { let k = b.len() - 1; b[k] = gen_scalar(rng); } pairs.push((Uv::Str(a), Uv::Str(b.into_iter().collect()))); }
+    for (a, b) in [("1", "1.0"), ("1.0", "1"), ("0", "0.0"), ("100", "100.0"), ("9007199254740992", "9007199254740993"), ("9007199254740993", "9007199254740992"), ("-1", "-1.0"), ("2.5", "2.5")] { pairs.push((Uv::JNum(a.into()), Uv::JNum(b.into()))); }
+    for (k, (a, b)) in pairs.iter().enumerate() {
+        let kind = match a { Uv::Int(_) => "update-int", Uv::Flt(_) => "update-float", Uv::Bool(_) => "update-bool", Uv::Str(_) => "update-string", Uv::JNum(_) => "update-json-number" };
+        let kind = if k == 0 { "directed-update-int-above-2p53".to_string() } else { kind.to_string() };
+        upd_case(out, w, &jw, How::Param, a, b, &kind);
+        if !matches!(a, Uv::JNum(_)) { upd_case(out, w, &jw, How::Literal, a, b, &kind); }
+    }
+}
+
+// ---------------------------------------------------------------- the service: one long-lived instance, near-identical requests
+fn svc_request(kind: usize, lit: &str, pad: &str) -> String {
+    // the literal stands on its own lines of the request: line breaks inside it are line breaks of the request text
+    match kind { 0 => format!("mutate {{\n{}S {{\n  name: \"{}\"\n  }}\n}}", pad, lit), _ => format!("query {{\n{}S (name = \"{}\") {{\n  id\n  }}\n}}", pad, lit) }
+}
+async fn service_family(svc: &GraphDatabaseService, fam: &[String], kind: &str) -> Case {
+    let mut obs: Vec<i64> = vec![];
+    let mut ids: Vec<String> = vec![];
+    let mut log: Vec<String> = vec![];
+    // each request writes its own literal ...
+    for lit in fam {
+        match svc.mutate(&svc_request(0, lit, "  "), None).await {
+            Err(e) => { obs.push(-1); obs.push(0); ids.push(String::new()); log.push(format!("mutate: {}", e)); }
+            Ok(r) => {
+                let v: serde_json::Value = serde_json::from_str(&r).unwrap_or(json!(null));
+                let id = v["S"]["id"].as_str().unwrap_or("").to_string();
+                let mut p = Parameters::new(); p.add("id", id.clone()).unwrap();
+                let back = svc.query("query { S (id = $id) { name } }", Some(p)).await.unwrap_or_default();
+                let bv: serde_json::Value = serde_json::from_str(&back).unwrap_or(json!(null));
+                match bv["S"][0]["name"].as_str() { Some(s) => enc_str(s, &mut obs), None => { obs.push(-1); log.push(format!("read back: {}", back)); } }
+                ids.push(id);
+            }
+        }
+    }
+    // ... and each filter finds the row written with the same literal, no other row of the family
+    for (k, lit) in fam.iter().enumerate() {
+        let found: Vec<String> = match svc.query(&svc_request(1, lit, "  "), None).await {
+            Ok(r) => { let v: serde_json::Value = serde_json::from_str(&r).unwrap_or(json!(null)); v["S"].as_array().map(|a| a.iter().filter_map(|o| o["id"].as_str().map(|s| s.to_string())).collect()).unwrap_or_default() }
+            Err(e) => { log.push(format!("query: {}", e)); vec![] }
+        };
+        let fam_found: Vec<&String> = found.iter().filter(|i| ids.contains(i)).collect();
+        obs.push((fam_found.len() == 1 && *fam_found[0] == ids[k]) as i64);
+    }
+    // deletions: two spellings of the same request, each with its own id
+    let dels = ["delete {\n  S {\n    $id\n  }\n}", "delete {\n\n S {\n$id\n}\n   }"];
+    for (k, d) in dels.iter().enumerate() {
+        if k >= ids.len() { obs.push(1); continue; }
+        let mut p = Parameters::new(); p.add("id", ids[k].clone()).unwrap();
+        let ok = svc.delete(d, Some(p)).await.is_ok();
+        let mut p = Parameters::new(); p.add("id", ids[k].clone()).unwrap();
+        let back = svc.query("query { S (id = $id) { name } }", Some(p)).await.unwrap_or_default();
+        let bv: serde_json::Value = serde_json::from_str(&back).unwrap_or(json!(null));
+        let gone = bv["S"].as_array().map(|a| a.is_empty()).unwrap_or(false);
+        let others = if ids.len() > 2 { let mut p = Parameters::new(); p.add("id", ids[2].clone()).unwrap(); let b = svc.query("query { S (id = $id) { name } }", Some(p)).await.unwrap_or_default(); let v: serde_json::Value = serde_json::from_str(&b).unwrap_or(json!(null)); v["S"].as_array().map(|a| a.len() == 1).unwrap_or(false) } else { true };
+        obs.push((ok && gone && others) as i64);
+    }
+    Case { kind: kind.into(), coq: format!("CSvc {}", glist(&fam.iter().map(|l| gstr(l)).collect::<Vec<_>>())), obs, meta: json!({"literals": fam, "log": log}) }
+}
+async fn service_cases(out: &mut Buf, rng: &mut Rng) {
+    let work = std::env::var("VERIF_WORK").unwrap_or("/verif/work".into());
+    let path: std::path::PathBuf = format!("{}/C04/svc", work).into();
+    let _ = std::fs::remove_dir_all(&path);
+    std::fs::create_dir_all(&path).unwrap();
+    let (svc, _, _) = GraphDatabaseService::start("c04", "{ S { name: String } }", &random32(), &random32(), path.clone(), &Configuration::default(), EventService::new()).await.expect("service starts");
+    let fam = |v: &[&str]| -> Vec<String> { v.iter().map(|s| s.to_string()).collect() };
+    let mut fams: Vec<(Vec<String>, &str)> = vec![
+        (fam(&["def f(x):\n    return x", "def f(x):\nreturn x", "def f(x):\n\treturn x", "def f(x):\r\n    return x", "def f(x):  \n    return x", "def f(x):\n\n    return x", "def f(x):\n    return x  ", "  def f(x):\n    return x"]), "directed-service-multiline-literal"),
+        (fam(&["a\nb", "a\n b", "a \nb", "a\n\nb", "a\r\nb", "a\n\tb", "a\n\n\nb", "a\nb\n", "a\nb\n ", "\na\nb"]), "service-multiline"),
+        (fam(&["one line", "one  line", " one line", "one line "]), "service-single-line"),
+        (fam(&["x\n  }\n}", "x\n}\n}", "x\n  }\n  }"]), "service-multiline-braces"),
+        (fam(&["l1\n// not a comment\nl3", "l1\n  // not a comment\nl3", "l1\n//not a comment\nl3"]), "service-multiline-comment-like"),
+    ];
+    for _ in 0..scale(12, 150) {
+        // random lines, then variants that only differ in blanks around the line breaks
+        let nl = rng.range(2, 4) as usize;
+        let lines: Vec<String> = (0..nl).map(|_| (0..rng.range(0, 5)).map(|_| *rng.pick(&['a', 'b', 'z', '0', '{', '}', ':', '$', '/', '\'', '(', ','])).collect()).collect();
+        let mut vs: Vec<String> = vec![];
+        for _ in 0..rng.range(3, 6) {
+            let mut t = String::new();
+            for (k, l) in lines.iter().enumerate() {
+                if k > 0 { let sep: &str = *rng.pick(&["\n", "\n", "\r\n", "\n\n", " \n", "\n ", "\t\n", "\n\t", "  \n  "]); t.push_str(sep); }
+                t.push_str(l);
+            }
+            if rng.chance(1, 4) { let e: &str = *rng.pick(&[" ", "\n", "\n "]); t.push_str(e); }
+            if !vs.contains(&t) { vs.push(t); }
+        }
+        fams.push((vs, "service-multiline-random"));
+    }
+    for (f, kind) in &fams { let c = service_family(&svc, f, kind).await; out.push(c); }
+    drop(svc);
+    tokio::time::sleep(std::time::Duration::from_millis(50)).await;
+    let _ = std::fs::remove_dir_all(&path);
+}
+
 fn main() {
     let mut rng = Rng::from_env();
     let mut real_out = Out::create();
@@ -810,6 +1003,8 @@ fn main() {
     json_b64_cases(&mut out, &mut rng);
     json_default_cases(&mut out);
     alias_search_cases(&mut out, &mut rng);
+    update_cases(&mut out, &mut rng, &w);
+    tokio::runtime::Runtime::new().unwrap().block_on(service_cases(&mut out, &mut rng));
     statements(&mut out, &mut rng);
     eprintln!("c04: {} cases", out.n);
     let mut kinds: std::collections::BTreeMap<String, (usize, usize, usize)> = Default::default();   // kind -> (cases, write refused, frame violated)
